@@ -44,6 +44,7 @@ type wspec struct {
 
 type foundV struct {
 	e    int
+	cold bool
 	race bool
 	v    Violation
 	plan *simsched.Plan
@@ -68,6 +69,8 @@ type aggT struct {
 	pairs      map[string]bool
 	found      []foundV
 	failed     []string
+	coldEpisodes int64
+	coldMidcall  int64
 }
 
 const raceOffset = 1000000
@@ -193,6 +196,20 @@ func raceSummary(txt string) string {
 
 // replayFresh runs a replay file in a fresh process of the right build.
 func replayFresh(rf *ReplayFile, sites string, timeout time.Duration) (vs []Violation, raced bool, racelog string, err error) {
+	if rf.Cold {
+		fix, err := coldFixtures(rf.Episode.FixSeed)
+		if err != nil {
+			return nil, false, "", err
+		}
+		co, raced, rlog, err := coldEpisode(rf.Episode, rf.Plan, fix, sites, rf.Race, timeout)
+		if err != nil {
+			return nil, false, rlog, err
+		}
+		if co != nil {
+			vs = co.Viol
+		}
+		return vs, raced, rlog, nil
+	}
 	f, err := os.CreateTemp("", "consim-replay-*.json")
 	if err != nil {
 		return nil, false, "", err
@@ -267,6 +284,147 @@ func reproducesN(rf *ReplayFile, sites string, need int) bool {
 		}
 	}
 	return false
+}
+
+var coldFixMu sync.Mutex
+
+// coldFixtures writes the data-only fixtures for a seed once per check.
+func coldFixtures(fixSeed uint64) (string, error) {
+	coldFixMu.Lock()
+	defer coldFixMu.Unlock()
+	path := filepath.Join(filepath.Dir(os.Getenv("CONSIM_SITES")), fmt.Sprintf("coldfix-%d.json", fixSeed))
+	if _, err := os.Stat(path); err == nil {
+		return path, nil
+	}
+	out, err := exec.Command(os.Getenv("CONSIM_BIN_PLAIN"), "fixgen", strconv.FormatUint(fixSeed, 10), path).CombinedOutput()
+	if err != nil {
+		return "", fmt.Errorf("fixgen: %v: %s", err, out)
+	}
+	return path, nil
+}
+
+func runProc(timeout time.Duration, env []string, bin string, args ...string) (string, int, error) {
+	cmd := exec.Command(bin, args...)
+	cmd.Env = append(os.Environ(), env...)
+	var out strings.Builder
+	cmd.Stdout = &out
+	cmd.Stderr = os.Stderr
+	if err := cmd.Start(); err != nil {
+		return "", -1, err
+	}
+	done := make(chan error, 1)
+	go func() { done <- cmd.Wait() }()
+	select {
+	case err := <-done:
+		if ee, ok := err.(*exec.ExitError); ok {
+			return out.String(), ee.ExitCode(), nil
+		}
+		return out.String(), 0, err
+	case <-time.After(timeout):
+		cmd.Process.Kill()
+		<-done
+		return "", -1, fmt.Errorf("timeout")
+	}
+}
+
+var coldSeq int64
+
+// coldEpisode: reference in one fresh process, scheduled first use in another.
+func coldEpisode(ep *Episode, plan *simsched.Plan, fix, sites string, race bool, timeout time.Duration) (*coldOut, bool, string, error) {
+	epj, _ := json.Marshal(ep)
+	plj, _ := json.Marshal(plan)
+	ref, code, err := runProc(timeout, nil, os.Getenv("CONSIM_BIN_PLAIN"), "cold-ref", string(epj), fix, sites)
+	if err != nil || code != 0 {
+		return nil, false, "", fmt.Errorf("cold reference process failed: code=%d err=%v", code, err)
+	}
+	bin := os.Getenv("CONSIM_BIN_PLAIN")
+	if race {
+		bin = os.Getenv("CONSIM_BIN_RACE")
+	}
+	coldFixMu.Lock()
+	coldSeq++
+	logp := filepath.Join(filepath.Dir(sites), fmt.Sprintf("coldrace-%d", coldSeq))
+	coldFixMu.Unlock()
+	out, code, err := runProc(timeout, []string{"GORACE=halt_on_error=1 exitcode=66 log_path=" + logp}, bin, "cold-run", string(epj), string(plj), fix, sites, ref)
+	rlog := ""
+	logs, _ := filepath.Glob(logp + ".*")
+	for _, l := range logs {
+		b, _ := os.ReadFile(l)
+		rlog += string(b)
+		os.Remove(l)
+	}
+	if err != nil {
+		return nil, false, rlog, err
+	}
+	if code == 66 {
+		return nil, true, rlog, nil
+	}
+	if code != 0 {
+		return nil, false, rlog, fmt.Errorf("cold run process exit %d", code)
+	}
+	co := &coldOut{}
+	if err := json.Unmarshal([]byte(out), co); err != nil {
+		return nil, false, rlog, fmt.Errorf("cold run output: %v", err)
+	}
+	return co, false, rlog, nil
+}
+
+func runCold(a *aggT, seed uint64, slot, nslots, n int, deadline int64, sites string, st *Sites) {
+	for e := slot; e < n; e += nslots {
+		if deadline > 0 && time.Now().Unix() >= deadline {
+			return
+		}
+		ep := genColdEpisode(seed, coldOffset+e)
+		plan := genColdPlan(core.Derive(seed, "consim", "cold-plan", e), ep, st)
+		race := e%3 == 2
+		fix, err := coldFixtures(ep.FixSeed)
+		if err != nil {
+			a.mu.Lock()
+			a.failed = append(a.failed, err.Error())
+			a.mu.Unlock()
+			return
+		}
+		co, raced, rlog, err := coldEpisode(ep, plan, fix, sites, race, 5*time.Minute)
+		a.mu.Lock()
+		switch {
+		case err != nil:
+			a.failed = append(a.failed, fmt.Sprintf("cold episode %d: %v", e, err))
+		case raced:
+			a.coldEpisodes++
+			a.found = append(a.found, foundV{e: coldOffset + e, race: true, cold: true, plan: plan, log: rlog,
+				v: Violation{Property: "C15", Oracle: "race-report", Where: fmt.Sprintf("cold episode %d", e), Detail: raceSummary(rlog), Signature: "race-report:" + raceSummary(rlog)}})
+		default:
+			a.coldEpisodes++
+			a.runs += int64(co.RunCount) + 1
+			if race {
+				a.raceRuns += int64(co.RunCount)
+			}
+			a.yields += co.Stats.Yields
+			a.switches += co.Stats.Switches
+			a.midcall += co.Stats.MidCall
+			a.traces[co.Stats.Trace] = true
+			if co.Stats.MidCall > 0 {
+				a.nontrivial[co.Stats.Trace] = true
+				a.coldMidcall++
+			}
+			for i := range a.byClass {
+				a.byClass[i] += co.ByClass[i]
+			}
+			for _, sh := range co.SiteHit {
+				a.sitesHit[sh] = true
+			}
+			a.strategies.Add("cold:"+plan.Strategy, 1)
+			for _, calls := range ep.Tasks {
+				for _, c := range calls {
+					a.kinds.Add(c.K, 1)
+				}
+			}
+			for _, v := range co.Viol {
+				a.found = append(a.found, foundV{e: coldOffset + e, race: race, cold: true, v: v, plan: plan})
+			}
+		}
+		a.mu.Unlock()
+	}
 }
 
 func dropTask(rf *ReplayFile, t int) *ReplayFile {
@@ -396,6 +554,20 @@ func check(tier string) int {
 		}(w)
 	}
 	wg.Wait()
+	// cold-start episodes: two short-lived processes each, all cores
+	nCold := envInt("CONSIM_COLD_EPISODES", map[bool]int{false: 160, true: 1000000}[thorough])
+	coldDeadline := int64(0)
+	if thorough {
+		coldDeadline = time.Now().Unix() + int64(envInt("VERIF_COLD_BUDGET_S", 5*60))
+	}
+	for slot := 0; slot < 16; slot++ {
+		wg.Add(1)
+		go func(slot int) {
+			defer wg.Done()
+			runCold(a, seed, slot, 16, nCold, coldDeadline, sites, st)
+		}(slot)
+	}
+	wg.Wait()
 
 	known, err := core.LoadKnown(filepath.Join(root, "known_findings.json"))
 	if err != nil {
@@ -419,7 +591,10 @@ func check(tier string) int {
 		}
 		seen[f.v.Oracle] = true
 		rf := &ReplayFile{Property: "C15", Oracle: f.v.Oracle, Engine: "consim", Tier: tier, Seed: seed, EpisodeIndex: f.e, TreeHash: tree, SiteTable: st.Hash, Race: f.race,
-			Episode: genEpisode(seed, f.e, thorough), Plan: f.plan, RaceReport: f.log}
+			Episode: genEpisode(seed, f.e, thorough), Plan: f.plan, RaceReport: f.log, Cold: f.cold}
+		if f.cold {
+			rf.Episode = genColdEpisode(seed, f.e)
+		}
 		v := f.v
 		rf.FirstDivergence = &v
 		ok := false
@@ -464,6 +639,8 @@ func check(tier string) int {
 		"samples":             []interface{}{map[string]interface{}{"episode": sampleEp, "plan": samplePlan}},
 		"exhaustive":          false,
 		"episodes":            a.episodes,
+		"cold_start_episodes": a.coldEpisodes,
+		"cold_start_episodes_with_midcall_preemption": a.coldMidcall,
 		"race_build_runs":     a.raceRuns,
 		"plain_build_runs":    a.runs - a.raceRuns,
 		"logical_steps":       a.yields,
@@ -513,8 +690,8 @@ func check(tier string) int {
 	if len(a.found)-knownMatched > 0 {
 		return 1
 	}
-	if a.midcall == 0 || a.raceRuns == 0 {
-		fmt.Fprintln(os.Stderr, "consim: INCONCLUSIVE: probe stuck at zero (no mid-call pre-emption or no race-build run)")
+	if a.midcall == 0 || a.raceRuns == 0 || a.coldMidcall == 0 {
+		fmt.Fprintln(os.Stderr, "consim: INCONCLUSIVE: probe stuck at zero (no mid-call pre-emption, no race-build run or no cold-start episode)")
 		return 2
 	}
 	return 0
